@@ -764,6 +764,67 @@ Proof.
   apply Qplus_le_compat; [exact H2|]. now apply Qopp_le_compat.
 Qed.
 
+(* the height of a line depends on its atomic inlines only (in their order): this is what
+   lets the check evaluate the height of a line of the IMPLEMENTATION from the atomic boxes
+   it placed on it, whatever the rest of its partition (Check.C11.vert_ok) *)
+Theorem line_height_atomics : forall c l, line_height c l = line_height c (filter is_atomic l).
+Proof.
+  intros c l. unfold line_height, line_extent.
+  assert (E : forall tb,
+    fold_left (fun tb i => match i with
+                           | Atomic _ _ h => (Qmin (fst tb) (- zq h), Qmax (snd tb) 0)
+                           | _ => tb end) l tb =
+    fold_left (fun tb i => match i with
+                           | Atomic _ _ h => (Qmin (fst tb) (- zq h), Qmax (snd tb) 0)
+                           | _ => tb end) (filter is_atomic l) tb).
+  { induction l as [|i r IH]; intros tb; [reflexivity|].
+    destruct i; simpl; apply IH. }
+  rewrite E. reflexivity.
+Qed.
+
+(* ... and a placed line shows exactly one atomic box per atomic inline, in order: trimming
+   removes spaces only, `walk` emits one FA per Atomic *)
+Definition is_fa (f : frag) : bool := match f with FA _ _ => true | FT _ _ => false end.
+
+Lemma drop_lead_atomics : forall l, filter is_atomic (drop_lead l) = filter is_atomic l.
+Proof.
+  induction l as [|i r IH]; [reflexivity|].
+  simpl. destruct (stops_trim i) eqn:Es; [reflexivity|].
+  destruct i; simpl in *; try discriminate; try exact IH.
+Qed.
+
+Lemma filter_rev : forall (A : Type) (f : A -> bool) (l : list A), filter f (rev l) = rev (filter f l).
+Proof.
+  intros A f l. induction l as [|a r IH]; [reflexivity|].
+  simpl. rewrite filter_app, IH. simpl. destruct (f a); simpl; [reflexivity|apply app_nil_r].
+Qed.
+
+Lemma trim_line_atomics : forall l, filter is_atomic (trim_line l) = filter is_atomic l.
+Proof.
+  intros l. unfold trim_line.
+  rewrite filter_rev, drop_lead_atomics, filter_rev, rev_involutive. apply drop_lead_atomics.
+Qed.
+
+Lemma walk_atomics : forall emv extra l x run,
+  length (filter is_fa (walk emv extra x run l)) = length (filter is_atomic l).
+Proof.
+  intros emv extra l. induction l as [|i r IH]; intros x run.
+  - simpl. destruct run as [[s w]|]; reflexivity.
+  - destruct i; cbn [walk filter is_atomic];
+      try (rewrite filter_app, app_length, IH; destruct run as [[s w0]|]; reflexivity);
+      try apply IH.
+    rewrite filter_app, app_length. cbn [filter is_fa length]. rewrite IH.
+    destruct run as [[s w0]|]; reflexivity.
+Qed.
+
+Theorem place_atomics : forall c first last l,
+  length (filter is_fa (place c first last l)) = length (filter is_atomic l).
+Proof.
+  intros c first last l. unfold place.
+  destruct (align_params c (if first then indent c else 0%Z) last (trim_line l)) as [off extra].
+  rewrite walk_atomics. now rewrite trim_line_atomics.
+Qed.
+
 (* ------------------------------------------------------------------ text-align, text-indent *)
 Lemma zq_minus : forall a b : Z, zq (a - b) == zq a - zq b.
 Proof. intros. unfold zq, Z.sub. rewrite inject_Z_plus, inject_Z_opp. reflexivity. Qed.
